@@ -437,7 +437,7 @@ func (s *c07cSess) probe(round int) {
 
 func TestVerifC07Concurrent(t *testing.T) {
 	rep := verifkit.New("C07", "concurrent",
-		"case = one round on a live query log (real time, race detector): 2-4 goroutines record bursts, one clears through the handler, one changes the configuration, one searches, with seeded jitter; after all have joined and the file has stopped changing, 3*size_memory+2 records are submitted one at a time, each automatic flush awaited, and must all be listed exactly once, newest first, live and after a restart; non-trivial = the round had at least one clear and more records than the memory size in its concurrent phase; distinct by (session, round, memory size)")
+		"case = one round on a live query log (real time, race detector): 2-4 goroutines record bursts, one clears through the handler, one changes the configuration, one searches, with seeded jitter; after all have joined and the file has stopped changing, 3*size_memory+2 records are submitted one at a time, each automatic flush awaited, and must all be listed exactly once, newest first, live and after a restart; a second kind of round overlaps two flushes (an automatic flush whose write is held back by the harness holding the internal write lock, more records, then Shutdown or the next automatic flush while the write lock is released) and checks at quiescence that the file is in time order and that older_than paging returns every record once; non-trivial = every round (each has a clear racing with records, or two overlapping flushes); distinct by (session, round, memory size)")
 	defer func() {
 		if err := rep.Write(); err != nil {
 			t.Fatal(err)
@@ -479,6 +479,9 @@ func TestVerifC07Concurrent(t *testing.T) {
 			// repeat it.
 			break
 		}
+	}
+	if !rep.Violated() {
+		c07cOverlap(rep, base)
 	}
 	if !rep.Violated() {
 		if n := rep.EventCount("probes"); n < sessions*rounds/2 {
